@@ -1095,7 +1095,8 @@ class LayoutSwapper(LayoutManager):
                 blockSize2 = np.prod(blockShape2)
 
                 # Ensure that there is enough memory for this gather operation
-                if (blockSize1 > blockSize2):
+                # (the blocks of the more distributed layout are gathered)
+                if (n2 > n1):
                     comm = h2.communicators[idx_2]
                     mpi_size = comm.Get_size()
 
